@@ -31,6 +31,7 @@ typedef struct {
     int shard, nshards;  /* this worker / number of workers */
     const char *prop;    /* property id */
     const char *phase;   /* phase name given by the driver ("" if none) */
+    const char *aux;     /* path of the auxiliary shared library (second copy of h3), or NULL */
     FILE *log;           /* event log (JSON lines) */
     char *slot;          /* 4 KiB supervisor slot (mmap) or private buffer */
     long nviol;          /* violations reported by this worker */
